@@ -169,7 +169,10 @@ func handSeeds(module string) [][]byte {
 		return [][]byte{winboxAuth("admin", 1), winboxAuth("u+r", 0), winboxAuth(string(bytes.Repeat([]byte("a"), 221)), 1),
 			winboxAuth(string(bytes.Repeat([]byte("b"), 230)), 0), winboxAuth(string(bytes.Repeat([]byte("c"), 222)), 1)}
 	case "regexp":
-		return [][]byte{[]byte("GET / HTTP/1.1\r\n"), []byte("abc"), {0x16, 0x03, 0x01, 0x00, 0x05, 1, 0, 0, 1, 0}}
+		return [][]byte{[]byte("GET / HTTP/1.1\r\n"), []byte("abc"), {0x16, 0x03, 0x01, 0x00, 0x05, 1, 0, 0, 1, 0},
+			// for patterns that are not prefix-closed (end anchors, negated classes): streams whose
+			// proper prefixes satisfy the pattern while the first `count` bytes do not, and vice versa
+			[]byte("12ab"), []byte("1234"), []byte("123"), []byte("abcabc"), []byte("abcxbc"), []byte("ab\ncd"), []byte("abcd")}
 	}
 	return nil
 }
